@@ -353,11 +353,13 @@ func addMethodCaller(aux *Aux, fname, qualifier, key string, caller slip.Caller,
 		meth = &slip.Method{Name: fname, Doc: fd}
 		aux.methods[key] = meth
 	}
-	var c *slip.Combination
+	c := &slip.Combination{}
 	if 0 < len(meth.Combinations) {
-		c = meth.Combinations[0]
+		// A call in progress on another thread might still be using the
+		// combination so it is replaced by a modified copy.
+		*c = *meth.Combinations[0]
+		meth.Combinations[0] = c
 	} else {
-		c = &slip.Combination{}
 		meth.Combinations = []*slip.Combination{c}
 	}
 	switch qualifier {
